@@ -281,6 +281,13 @@ pub fn iters<const N: usize, P: Pad>(ctx: &mut Ctx) {
                                                 h.buf().iter_mut().enumerate().for_each(|(_, t)| fe.push(t.id));
                                                 if got != want || rg != want || fe != want || h.buf().iter_mut().count() != want.len() {
                                                     bad(ctx, N, kind, "fold_order", format!("internal iteration visited {:?} / {:?} / {:?} expected {:?}", got, rg, fe, want));
+                                                    // the mutable references are handed out in the wrong order: a write through
+                                                    // this view lands on the wrong position (C07), i.e. the contents after an
+                                                    // order-dependent for_each are not the documented ones (C01)
+                                                    let c = ctx.cur_case.clone();
+                                                    for p in ["C07", "C01"] {
+                                                        ctx.violation(p, format!("iter={:?}|ncap={}|fold_order", kind, ncls(N)), format!("internal iteration over the mutable view visited {:?} expected {:?}; case={}", got, want, c));
+                                                    }
                                                 }
                                             }
                                             (Some(r), true) => {
@@ -301,6 +308,10 @@ pub fn iters<const N: usize, P: Pad>(ctx: &mut Ctx) {
                                                 });
                                                 if got != want || rg != want || fe != want {
                                                     bad(ctx, N, kind, "fold_order", format!("internal iteration visited {:?} / {:?} / {:?} expected {:?}", got, rg, fe, want));
+                                                    let c = ctx.cur_case.clone();
+                                                    for p in ["C07", "C01"] {
+                                                        ctx.violation(p, format!("iter={:?}|ncap={}|fold_order", kind, ncls(N)), format!("internal iteration over the mutable view visited {:?} expected {:?}; case={}", got, want, c));
+                                                    }
                                                 }
                                             }
                                         }
